@@ -377,6 +377,11 @@ VARIANTS = [
     brk('B-trim-to-applied-not-dump', ['C06', 'C01'], 'R-log-owners', (S, "            self.__deleteEntriesTo(serializeID)\n", "            self.__deleteEntriesTo(self.__raftLastApplied - 1)\n")),
     keep('P-trim-id-through-local', (S, "            self.__deleteEntriesTo(serializeID)\n            self.__lastSerializedEntry = serializeID\n", "            dumpedUpTo = serializeID\n            self.__deleteEntriesTo(dumpedUpTo)\n            self.__lastSerializedEntry = dumpedUpTo\n")),
     brk('B-queue-full-broad-except', ['C02'], 'R-disposition', (S, "        except Queue.Full:\n            self.__callErrCallback(FAIL_REASON.QUEUE_FULL, callback)", "        except (Queue.Full, OSError):\n            self.__callErrCallback(FAIL_REASON.QUEUE_FULL, callback)")),
+    brk('B-disconnect-clears-vote', ['C03'], 'R-owners-election', (S, "    def __onNodeDisconnected(self, node):\n", "    def __onNodeDisconnected(self, node):\n        if node.id == self.__votedForNodeId:\n            self.__votedForNodeId = None\n")),
+    brk('B-compaction-raises-commit', ['C01', 'C04'], 'R-owners-log', (S, "            self.__lastSerializedEntry = serializeID\n", "            self.__lastSerializedEntry = serializeID\n            self.__raftCommitIndex = max(self.__raftCommitIndex, serializeID)\n")),
+    brk('B-disconnect-drops-voter', ['C10', 'C18'], 'R-owners-membership', (S, "    def __onNodeDisconnected(self, node):\n", "    def __onNodeDisconnected(self, node):\n        self.__otherNodes.discard(node)\n")),
+    brk('B-sender-refreshes-response-time', ['C20'], 'R-owners-liveness', (S, "    def __sendAppendEntries(self):\n        self.__newAppendEntriesTime = monotonicTime() + self.__conf.appendEntriesPeriod\n", "    def __sendAppendEntries(self):\n        self.__newAppendEntriesTime = monotonicTime() + self.__conf.appendEntriesPeriod\n        for node_ in self.__connectedNodes:\n            self.__lastResponseTime[node_] = monotonicTime()\n")),
+    brk('B-compaction-forgets-waiters', ['C02'], 'R-owners-callbacks', (S, "            self.__lastSerializedEntry = serializeID\n", "            self.__lastSerializedEntry = serializeID\n            self.__commandsWaitingCommit.pop(serializeID, None)\n")),
     keep('P-rename-transport-privates', (TR, '_shouldConnect', '_mustDial'), (TR, '_onIncomingMessageReceived', '_onHandshake'), (TR, '_connectIfNecessarySingle', '_dialOne'),
          (TR, '_onDisconnected', '_onConnLost')),
     keep('P-checkserializing-hoist-reset', (SER, "                serializeState = SERIALIZER_STATE.SUCCESS if self.__pid == -1 else SERIALIZER_STATE.FAILED\n                self.__pid = 0\n", "                finished = self.__pid\n                self.__pid = 0\n                serializeState = SERIALIZER_STATE.SUCCESS if finished == -1 else SERIALIZER_STATE.FAILED\n")),
